@@ -1885,5 +1885,23 @@ func appendNotNilFilter(field *aggregateRequestTarget, childField string) {
 	}
 
 	typedChildBlock := childBlock.(map[string]any)
+	if userOperand, hasUserNe := typedChildBlock["_ne"]; hasUserNe && userOperand != nil {
+		// The consumer already filters this field with `_ne: <value>`: writing `_ne: nil` into the
+		// same block would replace their operand. Keep both conditions side by side instead.
+		var notNil map[string]any
+		if childField == "" {
+			notNil = map[string]any{"_ne": nil}
+		} else {
+			notNil = map[string]any{childField: map[string]any{"_ne": nil}}
+		}
+		field.filter = immutable.Some(
+			request.Filter{
+				Conditions: map[string]any{
+					"_and": []any{field.filter.Value().Conditions, notNil},
+				},
+			},
+		)
+		return
+	}
 	typedChildBlock["_ne"] = nil
 }
